@@ -19,6 +19,7 @@ import (
 	"encoding/json"
 	"fmt"
 	"math/rand"
+	"net"
 	"os"
 	"path/filepath"
 	"sort"
@@ -62,6 +63,13 @@ func main() {
 
 func plan(tier string, seed int64) []run.Batch {
 	var bs []run.Batch
+	if dbg := os.Getenv("C11_DEBUG_IDS"); dbg != "" {
+		// debugging aid: run the given outcome cases (JSON list) in parallel batches, nothing else
+		for i := 0; i < 16; i++ {
+			bs = append(bs, run.Batch{Kind: "outcomes", Seed: seed, TimeoutS: 300, Params: map[string]string{"ids": dbg}})
+		}
+		return bs
+	}
 	// the coverage-instrumented child comes first: its build time overlaps with the other batches
 	bs = append(bs, run.Batch{Kind: "cover", Seed: seed, Variant: "cover", TimeoutS: 300, Params: map[string]string{"direct": "100", "full": "16"}})
 	if tier != "thorough" {
@@ -74,6 +82,9 @@ func plan(tier string, seed int64) []run.Batch {
 			}
 			raw, _ := json.Marshal(ids[i:j])
 			bs = append(bs, run.Batch{Kind: "outcomes", Seed: seed, N: j - i, TimeoutS: 150, Params: map[string]string{"ids": string(raw)}})
+		}
+		for i := 0; i < 6; i += 2 {
+			bs = append(bs, run.Batch{Kind: "stall", Seed: seed, N: 2, TimeoutS: 200, Params: map[string]string{"from": fmt.Sprint(i), "to": fmt.Sprint(i + 2)}})
 		}
 		bs = append(bs, run.Batch{Kind: "overlap", Seed: seed, N: 16, TimeoutS: 150, Params: map[string]string{"from": "0", "to": "16"}})
 		for i := 0; i < 3; i++ {
@@ -94,6 +105,9 @@ func plan(tier string, seed int64) []run.Batch {
 		}
 		raw, _ := json.Marshal(mine)
 		bs = append(bs, run.Batch{Kind: "outcomes", Seed: seed, N: len(mine), TimeoutS: 400, Params: map[string]string{"ids": string(raw)}})
+	}
+	for i := 0; i < 60; i += 4 {
+		bs = append(bs, run.Batch{Kind: "stall", Seed: seed, N: 4, TimeoutS: 300, Params: map[string]string{"from": fmt.Sprint(i), "to": fmt.Sprint(i + 4)}})
 	}
 	for i := 0; i < 400; i += 50 {
 		bs = append(bs, run.Batch{Kind: "overlap", Seed: seed, N: 50, TimeoutS: 300, Params: map[string]string{"from": fmt.Sprint(i), "to": fmt.Sprint(i + 50)}})
@@ -214,6 +228,7 @@ type ctx struct {
 	c        *client.Client
 	T0       uint64
 	closed   bool
+	udpWatch map[int]int
 }
 
 func (x *ctx) trace(f string, a ...interface{}) {
@@ -249,7 +264,7 @@ func copySet(m map[[32]byte]bool) map[[32]byte]bool {
 }
 
 func (x *ctx) entryFor(j int, banned bool) refenc.AuthServer {
-	return refenc.AuthServer{Pub: x.rogues[j].Key.Pub, Banned: banned, Location: "127.0.0.1", TCP: x.rogues[j].Port, UDP: x.sink.Port}.Signed(x.gca.Priv)
+	return refenc.AuthServer{Pub: x.rogues[j].Key.Pub, Banned: banned, Location: "127.0.0.1", TCP: x.rogues[j].Port, UDP: x.rogues[j].udp.Port}.Signed(x.gca.Priv)
 }
 
 // mkList draws the server list that server j announces in its genuine reply.
@@ -342,6 +357,10 @@ func (x *ctx) setup() error {
 		if err != nil {
 			return err
 		}
+		// every server has its own UDP port: a report sent to a banned server is seen as such
+		if rg.udp, err = drv.NewUDPSink(); err != nil {
+			return err
+		}
 		x.rogues = append(x.rogues, rg)
 	}
 	s0 := uint32(100 + rng.Intn(1000))
@@ -355,7 +374,7 @@ func (x *ctx) setup() error {
 			x.told[rg.Key.Pub] = true
 		}
 		if !s.Spare {
-			entries = append(entries, refenc.MapEntry{Pub: rg.Key.Pub, Banned: s.Banned, Location: "127.0.0.1", TCP: rg.Port, UDP: x.sink.Port})
+			entries = append(entries, refenc.MapEntry{Pub: rg.Key.Pub, Banned: s.Banned, Location: "127.0.0.1", TCP: rg.Port, UDP: rg.udp.Port})
 		}
 		jj := j
 		if j == 0 && x.cc.Shape != "" {
@@ -449,6 +468,9 @@ func (x *ctx) teardown() {
 			x.r.Count("foreign_connections_ignored", int64(f))
 		}
 		rg.close()
+		if rg.udp != nil {
+			rg.udp.Close()
+		}
 	}
 	if x.closedRg != nil {
 		x.closedRg.close()
@@ -461,6 +483,7 @@ func (x *ctx) teardown() {
 
 // closeClient: bounded, because Close on a client whose mutex leaked never returns.
 func (x *ctx) closeClient() bool {
+	x.checkUDP("before close")
 	x.closed = true
 	done := make(chan struct{})
 	c := x.c
@@ -526,16 +549,12 @@ func (x *ctx) emission(label string, expect bool) (abort bool) {
 	T := client.VerifTicks()
 	start := time.Now()
 	last, lastChange := T, time.Now()
-	seenPk := 0
 	for {
-		pk := x.sink.Packets()
-		for ; seenPk < len(pk); seenPk++ {
-			p := pk[seenPk]
-			if len(p) == 80 && binary.LittleEndian.Uint32(p[4:]) == slot {
-				x.r.Count("emission_ok", 1)
-				x.r.Max("max.ticks_until_new_report_at_sink", int64(client.VerifTicks()-T))
-				return false
-			}
+		if x.sawSlot(slot) {
+			x.r.Count("emission_ok", 1)
+			x.r.Max("max.ticks_until_new_report_at_sink", int64(client.VerifTicks()-T))
+			x.checkUDP(label)
+			return false
 		}
 		t := client.VerifTicks()
 		if t != last {
@@ -543,6 +562,7 @@ func (x *ctx) emission(label string, expect bool) (abort bool) {
 		}
 		if !expect && t >= T+3 {
 			x.r.Count("loop_ticks_without_usable_primary", 1)
+			x.checkUDP(label)
 			return false
 		}
 		if t >= T+20 {
@@ -637,12 +657,14 @@ func (x *ctx) checkState(label string, primaryClause bool, file bool) client.Ver
 	if !any {
 		x.r.Count("states_with_every_server_banned", 1)
 	}
-	if primaryClause && any {
+	if primaryClause {
+		// unconditional: a banned primary is a violation even when every server is banned
+		// (a blank primary is what the client is left with then, and that is fine)
 		p, ok := st.Servers[st.PrimaryServer]
 		x.r.Count("primary_checks", 1)
-		if !ok || p.Banned {
+		if (ok && p.Banned) || (!ok && any) {
 			x.r.Violationf("primary-server-banned", x.replay(map[string]interface{}{"label": label, "primary": hex.EncodeToString(st.PrimaryServer[:]), "listed": ok}),
-				"%s: a non-banned server exists but the primary server %x is %s", label, st.PrimaryServer[:6], map[bool]string{true: "banned", false: "not in the map"}[ok])
+				"%s: the primary server %x is %s", label, st.PrimaryServer[:6], map[bool]string{true: "banned", false: "not in the map"}[ok])
 		}
 	}
 	return st
@@ -864,6 +886,7 @@ func runCase(cc *caseCfg, b run.Batch, r *ev.Result) (abort bool) {
 		return false
 	}
 	x.c = c
+	x.clientStarted()
 	r.Count("cases", 1)
 	r.Count("cases_"+cc.Kind, 1)
 	if b.Kind == "outcomes" {
@@ -905,6 +928,7 @@ func runCase(cc *caseCfg, b run.Batch, r *ev.Result) (abort bool) {
 		return false
 	}
 	x.c, x.closed = c2, false
+	x.clientStarted()
 	r.Count("restarts", 1)
 	x.checkState("restart", !x.migrated, true)
 	if _, abort = x.round("round after restart"); abort {
@@ -937,6 +961,7 @@ func (x *ctx) stalePhase() (abort bool) {
 		return false
 	}
 	x.c, x.closed = c, false
+	x.clientStarted()
 	x.r.Count("stale_restarts", 1)
 	st := x.c.VerifState()
 	early := client.VerifTicks() <= x.T0+1 // the first background round cannot have touched anything yet
@@ -965,10 +990,10 @@ func (x *ctx) stalePhase() (abort bool) {
 	if nonBanned-listening > 4 {
 		listening = 0 // a round is not certain to reach a listening server: nothing is demanded
 	}
-	if early && any && !x.migrated {
+	if early && !x.migrated {
 		x.r.Count("primary_checks", 1)
-		if p, ok := st.Servers[st.PrimaryServer]; !ok || p.Banned {
-			x.r.Violationf("primary-server-banned", x.replay(map[string]interface{}{"label": "stale restart"}), "stale restart: a non-banned server exists but the primary server %x is banned or not in the map", st.PrimaryServer[:6])
+		if p, ok := st.Servers[st.PrimaryServer]; (ok && p.Banned) || (!ok && any) {
+			x.r.Violationf("primary-server-banned", x.replay(map[string]interface{}{"label": "stale restart"}), "stale restart: the primary server %x is banned or (although a non-banned server exists) not in the map", st.PrimaryServer[:6])
 		}
 	}
 	start := time.Now()
@@ -1088,6 +1113,16 @@ func child(b run.Batch, r *ev.Result) {
 				return
 			}
 		}
+	case "stall":
+		var from, to int
+		fmt.Sscan(b.P("from"), &from)
+		fmt.Sscan(b.P("to"), &to)
+		for i := from; i < to; i++ {
+			if runStall(stallCase(i, b.Seed), b, r) {
+				r.Count("cases_skipped_after_abort", 1)
+				return
+			}
+		}
 	case "overlap":
 		var from, to int
 		fmt.Sscan(b.P("from"), &from)
@@ -1115,8 +1150,111 @@ func child(b run.Batch, r *ev.Result) {
 				return
 			}
 		}
+		if runStall(stallCase(0, b.Seed), b, r) {
+			return
+		}
 		shapesChild(b, r, true)
 	}
 }
 
 func sha(b []byte) string { h := sha256.Sum256(b); return hex.EncodeToString(h[:8]) }
+
+// ourReport: an 80 byte datagram carrying one of our client's short ids.
+func (x *ctx) ourReport(p []byte) bool {
+	if len(p) != 80 || len(x.rogues) == 0 {
+		return len(p) == 80
+	}
+	x.rogues[0].mu.Lock()
+	defer x.rogues[0].mu.Unlock()
+	return x.rogues[0].anyID || x.rogues[0].ids[binary.LittleEndian.Uint32(p)]
+}
+
+func (x *ctx) sawSlot(slot uint32) bool {
+	sinks := []*drv.UDPSink{x.sink}
+	for _, rg := range x.rogues {
+		sinks = append(sinks, rg.udp)
+	}
+	for _, sk := range sinks {
+		if sk == nil {
+			continue
+		}
+		for _, p := range sk.Packets() {
+			if len(p) == 80 && binary.LittleEndian.Uint32(p[4:]) == slot {
+				return true
+			}
+		}
+	}
+	return false
+}
+
+func (x *ctx) reportsAt(j int) int {
+	n := 0
+	for _, p := range x.rogues[j].udp.Packets() {
+		if x.ourReport(p) {
+			n++
+		}
+	}
+	return n
+}
+
+// clientStarted is called right after every NewClient: servers the client has
+// been told are banned at that moment can never become its primary in this
+// instance, so no report datagram may ever reach their UDP ports.
+func (x *ctx) clientStarted() {
+	x.udpWatch = map[int]int{}
+	for j, rg := range x.rogues {
+		if x.told[rg.Key.Pub] && rg.udp != nil {
+			// Datagrams of the previous client instance may still sit unread in the
+			// socket: a marker queued behind them tells when all of them are counted.
+			if !x.udpBarrier(j) {
+				x.r.Count("banned_udp_port_not_watched_marker_lost", 1)
+				continue
+			}
+			x.udpWatch[j] = x.reportsAt(j)
+		}
+	}
+}
+
+var markerSeq uint64
+
+func (x *ctx) udpBarrier(j int) bool {
+	markerSeq++
+	m := make([]byte, 9)
+	m[0] = 'M'
+	binary.LittleEndian.PutUint64(m[1:], markerSeq)
+	c, err := net.DialUDP("udp", nil, &net.UDPAddr{IP: net.ParseIP("127.0.0.1"), Port: int(x.rogues[j].udp.Port)})
+	if err != nil {
+		return false
+	}
+	_, err = c.Write(m)
+	c.Close()
+	if err != nil {
+		return false
+	}
+	for dl := time.Now().Add(10 * time.Second); time.Now().Before(dl); time.Sleep(200 * time.Microsecond) {
+		pk := x.rogues[j].udp.Packets()
+		for i := len(pk) - 1; i >= 0; i-- {
+			if len(pk[i]) == 9 && string(pk[i]) == string(m) {
+				return true
+			}
+		}
+	}
+	return false
+}
+
+func (x *ctx) checkUDP(label string) {
+	for j, base := range x.udpWatch {
+		x.r.Count("banned_udp_ports_watched", 1)
+		if n := x.reportsAt(j); n > base {
+			x.udpWatch[j] = n
+			var dg []string
+			for _, p := range x.rogues[j].udp.Packets() {
+				if len(p) == 80 {
+					dg = append(dg, fmt.Sprintf("id=%d slot=%d power=%d", binary.LittleEndian.Uint32(p), binary.LittleEndian.Uint32(p[4:]), binary.LittleEndian.Uint64(p[8:])))
+				}
+			}
+			x.r.Violationf("sent-report-to-banned-server", x.replay(map[string]interface{}{"label": label, "server_index": j, "baseline": base, "datagrams_at_that_port": dg, "latest_slot": x.latest}),
+				"%s: %d report datagram(s) arrived at the UDP port of server #%d (%x), which the client knew to be banned when it started", label, n-base, j, x.rogues[j].Key.Pub[:6])
+		}
+	}
+}
